@@ -212,6 +212,19 @@ theorem C09_locks_match_model :
     Generated.C09ChanLocks.others.length = 0 ∧
     Generated.C09ChanLocks.shapeChanged.length = 0 := by decide
 
+/-- The script-level method objects (`$ch->send(...)` … in `channel_methods.go`) are thin wrappers:
+each `Call` invokes exactly the one `Channel` method the model's operation stands for, once, with no
+loop, no goroutine and no other `Channel` method (a shortcut through `IsClosed`/`Len` before
+`Receive`, say, would be a different protocol from the one the theorems above are about). -/
+def wrapperProtocol : List (String × List String) :=
+  [("ChannelCapMethod", ["Cap"]), ("ChannelCloseMethod", ["Close"]),
+   ("ChannelConstructMethod", ["Construct"]), ("ChannelIsClosedMethod", ["IsClosed"]),
+   ("ChannelLenMethod", ["Len"]), ("ChannelReceiveMethod", ["Receive"]),
+   ("ChannelSendMethod", ["Send"])]
+
+theorem C09_script_methods_are_wrappers :
+    Generated.C09ChanLocks.wrappers = wrapperProtocol := by decide
+
 /-! ### the pinned (pre-fix) protocol violated `no_panic`
 
 `∀ cap prog sched, (ChanRacy.exec (ChanRacy.init cap prog) sched).panicked = false` is **false** for
